@@ -4,6 +4,7 @@ import scipy.linalg as la
 from hypothesis import strategies as st
 
 from vlib import util
+from vlib import defaults
 from vlib.core import Part
 
 PROPERTY = "C15"
@@ -322,4 +323,7 @@ def long_cases(draw):
 PARTS = [
     Part("ntfl", oracle, strategy=cases, quick=(16, 80), thorough=(16, 2500)),
     Part("ntfl_long", oracle, strategy=long_cases, quick=(8, 2), thorough=(16, 8)),
+    # documented defaults: leaving a keyword out = passing its documented value (vlib/defaults.py)
+    Part("defaults", defaults.make_oracle("C15"), enum=defaults.make_enum(), quick=(1, None), thorough=(1, None),
+         exhaustive=True),
 ]
